@@ -432,9 +432,11 @@ impl Template {
                 if let Ok(json) = json_result {
                     Parameter::Literal(json)
                 } else {
+                    let (line_no, col_no) = param_span.start_pos().line_col();
                     return Err(TemplateError::of(TemplateErrorReason::InvalidParam(
                         param_span.as_str().to_owned(),
-                    )));
+                    ))
+                    .at(source, line_no, col_no));
                 }
             }
             Rule::subexpression => {
@@ -663,6 +665,18 @@ impl Template {
         source: &str,
         options: TemplateOptions,
     ) -> Result<Template, TemplateError> {
+        let name = options.name();
+        // every compile error names the template it was found in
+        Self::compile2_inner(source, options).map_err(|e| {
+            if e.name().is_none() {
+                e.in_template(name)
+            } else {
+                e
+            }
+        })
+    }
+
+    fn compile2_inner(source: &str, options: TemplateOptions) -> Result<Template, TemplateError> {
         let mut helper_stack: VecDeque<HelperTemplate> = VecDeque::new();
         let mut decorator_stack: VecDeque<DecoratorTemplate> = VecDeque::new();
         let mut template_stack: VecDeque<Template> = VecDeque::new();
@@ -826,8 +840,7 @@ impl Template {
                             }
                             let _ = Template::parse_name(source, &mut it, span.end())?;
                         }
-                        let mut exp =
-                            Template::parse_expression(source, it.by_ref(), span.end())?;
+                        let mut exp = Template::parse_expression(source, it.by_ref(), span.end())?;
                         exp.omit_pre_ws |= chain_omit_pre_ws;
 
                         if exp.omit_pre_ws {
